@@ -466,6 +466,41 @@ func bombQuery(family string, d int) string {
 			fmt.Fprintf(&sb, "fragment K%d on Obj { kids { ...K%d } k2: kids { ...K%d } }\n", i, i+1, i+1)
 		}
 		fmt.Fprintf(&sb, "fragment K%d on Obj { x }\n", d)
+	case "nestspread": // the doubling sits in one selection set under an object field: executed, the result is one x
+		sb.WriteString("{ obj { ...G0 } }\n")
+		for i := 0; i < d; i++ {
+			fmt.Fprintf(&sb, "fragment G%d on Obj { ...G%d ...G%d }\n", i, i+1, i+1)
+		}
+		fmt.Fprintf(&sb, "fragment G%d on Obj { x }\n", d)
+	case "nestspread3": // three spreads of the next fragment, below a list field
+		sb.WriteString("{ objs { ...G0 y } }\n")
+		for i := 0; i < d; i++ {
+			fmt.Fprintf(&sb, "fragment G%d on Obj { ...G%d x ...G%d ...G%d }\n", i, i+1, i+1, i+1)
+		}
+		fmt.Fprintf(&sb, "fragment G%d on Obj { x }\n", d)
+	case "nestinline": // the same through inline fragments around the spreads
+		sb.WriteString("{ obj { ...G0 } nn { ...G0 } }\n")
+		for i := 0; i < d; i++ {
+			fmt.Fprintf(&sb, "fragment G%d on Obj { ... on Obj { ...G%d } ... on Obj { ...G%d y } }\n", i, i+1, i+1)
+		}
+		fmt.Fprintf(&sb, "fragment G%d on Obj { x }\n", d)
+	case "nestnext2", "nestnext3": // each fragment selects next and spreads the following fragment k times in it: the
+		// same alias at every level, so the response is one chain of depth d
+		k := 2
+		if family == "nestnext3" {
+			k = 3
+		}
+		sb.WriteString("{ obj { ...G0 } }\n")
+		for i := 0; i < d; i++ {
+			fmt.Fprintf(&sb, "fragment G%d on Obj { next {%s } }\n", i, strings.Repeat(fmt.Sprintf(" ...G%d", i+1), k))
+		}
+		fmt.Fprintf(&sb, "fragment G%d on Obj { x }\n", d)
+	case "nestnextinline": // the same with the two spreads inside inline fragments, below a list
+		sb.WriteString("{ objs { ...G0 } }\n")
+		for i := 0; i < d; i++ {
+			fmt.Fprintf(&sb, "fragment G%d on Obj { next { ... on Obj { ...G%d } x ... on Obj { ...G%d } } }\n", i, i+1, i+1)
+		}
+		fmt.Fprintf(&sb, "fragment G%d on Obj { x }\n", d)
 	case "chain": // control: linear
 		sb.WriteString("{ ...F0 }\n")
 		for i := 0; i < d; i++ {
@@ -485,7 +520,40 @@ func bombQuery(family string, d int) string {
 	return sb.String()
 }
 
-var bombFamilies = []string{"sibling2", "sibling3", "mixed", "nestfield", "nestlist", "unionbomb", "chain", "wide", "inline"}
+var bombFamilies = []string{"sibling2", "sibling3", "mixed", "nestfield", "nestlist", "unionbomb", "nestspread", "nestspread3", "nestinline", "nestnext2", "nestnext3", "nestnextinline", "chain", "wide", "inline"}
+
+// execFamilies are also executed: their response is small whatever the depth.
+var execFamilies = map[string]bool{"sibling2": true, "sibling3": true, "mixed": true, "nestspread": true, "nestspread3": true, "nestinline": true, "nestnext2": true, "nestnext3": true, "nestnextinline": true, "chain": true, "wide": true, "inline": true}
+
+// ---- wide fan-out: many sibling work units that each produce child units ----
+
+func genFanout(r *vh.Rng) Case {
+	n := 64 + r.Intn(237)
+	if r.Chance(20) {
+		n = []int{63, 64, 65, 100, 128, 300}[r.Intn(6)]
+	}
+	leafs := []string{"x", "exn", `bboom(mode: "ok")`, `boom(mode: "ok")`, "y"}
+	level := func(inner string) string {
+		switch r.Intn(5) {
+		case 0:
+			return "ex { " + inner + " }"
+		case 1:
+			return "bself { " + inner + " }"
+		case 2:
+			return "child { " + inner + " }"
+		case 3:
+			return "ex { " + r.Pick(leafs) + " bself { " + inner + " } }"
+		default:
+			return "kids { " + inner + " }"
+		}
+	}
+	sel := r.Pick(leafs)
+	for k := 1 + r.Intn(3); k > 0; k-- {
+		sel = level(sel + " " + r.Pick(leafs))
+	}
+	q := fmt.Sprintf("{ many(n: %d) { %s } }", n, sel)
+	return Case{Stream: "fanout", Query: q, Depth: n, Origin: "fanout"}
+}
 
 // ---- socket scripts ----
 
